@@ -127,35 +127,57 @@ def _scratch_copy():
     return base
 
 
+def _load_index():
+    import importlib.util
+
+    spec = importlib.util.spec_from_file_location("selftest_mutants_index", os.path.join(VERIF, "selftest_mutants", "index.py"))
+    mod = importlib.util.module_from_spec(spec)
+    spec.loader.exec_module(mod)
+    return mod.MUTANTS, mod.BENIGN
+
+
 def mutants(master, tier, only=None):
-    mdir = os.path.join(VERIF, "selftest_mutants")
-    index = json.load(open(os.path.join(mdir, "index.json")))
+    """Known-bad edits must be reported by the checks named in `expect`, known-benign
+    edits must leave them clean.  Every edit is applied to a scratch copy that is
+    removed right afterwards."""
+    bad, benign = _load_index()
     failures = 0
-    for m in index:
-        if only and m["name"] not in only:
+    rdir = tempfile.mkdtemp(prefix="tucan-selftest-replays-")
+    for m in bad + benign:
+        if only and m["name"] not in only and not (("benign" in only and m in benign) or ("bad" in only and m in bad)):
             continue
         scratch = _scratch_copy()
         try:
-            r = subprocess.run(["patch", "-p1", "-s", "-d", scratch, "-i", os.path.join(mdir, m["patch"])], capture_output=True, text=True)
-            if r.returncode != 0:
-                print(f"{m['name']}: PATCH FAILED {r.stdout} {r.stderr}")
+            okp = True
+            for rel, old, new in m["edits"]:
+                f = os.path.join(scratch, rel)
+                txt = open(f).read()
+                if old not in txt:
+                    print(f"{m['name']}: EDIT DOES NOT APPLY to {rel}")
+                    okp = False
+                    break
+                open(f, "w").write(txt.replace(old, new, 1))
+            if not okp:
                 failures += 1
                 continue
-            for prop in m["checks"]:
-                env = dict(os.environ, VERIF_REPO=scratch, VERIF_SEED=str(master), VERIF_MIN_RUNS="60", VERIF_MIN_SECONDS="120")
+            for prop, expect in sorted(m["expect"].items()):
+                env = dict(os.environ, VERIF_REPO=scratch, VERIF_SEED=str(master), VERIF_MIN_RUNS="40", VERIF_MIN_SECONDS="60", VERIF_REPLAY_DIR=rdir)
                 t0 = time.monotonic()
-                r = subprocess.run([os.path.join(VERIF, "check"), prop, "--runs", str(m.get("runs", 240)), "--quiet", "--no-evidence"], capture_output=True, text=True, env=env)
+                cmd = [os.path.join(VERIF, "check"), prop, "--quiet", "--no-evidence"]
+                if m.get("runs"):
+                    cmd += ["--runs", str(m["runs"])]
+                r = subprocess.run(cmd, capture_output=True, text=True, env=env)
                 viol = [l for l in r.stdout.splitlines() if l.startswith("VIOLATION")]
-                expect = m["expect"].get(prop, "violation")
                 got = "violation" if (r.returncode == 1 and viol) else ("clean" if r.returncode == 0 else f"error({r.returncode})")
                 status = "ok" if got == expect else "UNEXPECTED"
                 if status != "ok":
                     failures += 1
-                print(f"{m['name']:40s} {prop}: expected {expect:9s} got {got:9s} {status} [{time.monotonic() - t0:.0f}s] {viol[:1]}")
+                print(f"{m['name']:36s} {prop}: expected {expect:9s} got {got:9s} {status} [{time.monotonic() - t0:.0f}s]", flush=True)
                 if status != "ok":
                     print(r.stdout[-1500:], r.stderr[-800:])
         finally:
             shutil.rmtree(scratch, ignore_errors=True)
+    shutil.rmtree(rdir, ignore_errors=True)
     print("MUTANTS", "OK" if failures == 0 else f"FAILED ({failures})")
     return 0 if failures == 0 else 1
 
